@@ -333,7 +333,8 @@ fn setup(name: &str) -> Option<Setup> {
             s.guards.push(Box::new(g));
             s
         }
-        "unix_accept" | "unix_try_accept" | "unix_accept_timeout" | "unix_try_accept_none" | "unix_accept_timeout_none" => {
+        "unix_accept" | "unix_try_accept" | "unix_accept_timeout" | "unix_try_accept_none" | "unix_accept_timeout_none"
+        | "unix_accept_timeout_huge" | "unix_accept_timeout_huge2" => {
             let path = f("s");
             let mut l = UnixListener::bind(&us(&path)).unwrap();
             let mut guards: Vec<Box<dyn Any>> = vec![];
@@ -346,6 +347,9 @@ fn setup(name: &str) -> Option<Setup> {
                     "unix_accept" => one_fd(l.accept()),
                     "unix_try_accept" | "unix_try_accept_none" => opt_fd(l.try_accept()),
                     "unix_accept_timeout" => one_fd(l.accept_with_timeout(core::time::Duration::from_millis(200))),
+                    // a timeout no TimeSpec can hold: the pure conversion fails, no system call does
+                    "unix_accept_timeout_huge" => one_fd(l.accept_with_timeout(core::time::Duration::MAX)),
+                    "unix_accept_timeout_huge2" => one_fd(l.accept_with_timeout(core::time::Duration::new(i64::MAX as u64 + 1, 0))),
                     _ => one_fd(l.accept_with_timeout(core::time::Duration::from_millis(20))),
                 };
                 o.keep = Box::new((o.keep, l));
@@ -355,7 +359,8 @@ fn setup(name: &str) -> Option<Setup> {
             s
         }
         // ---------------------------------------------------------------- tcp
-        "tcp_connect" | "tcp_connect_timeout" | "tcp_try_connect" | "tcp_connect_refused" | "tcp_inprogress_try" | "tcp_inprogress_block" => {
+        "tcp_connect" | "tcp_connect_timeout" | "tcp_try_connect" | "tcp_connect_refused" | "tcp_inprogress_try" | "tcp_inprogress_block"
+        | "tcp_connect_timeout_huge" | "tcp_connect_timeout_huge2" => {
             let l = std::net::TcpListener::bind("127.0.0.1:0").unwrap();
             let port = l.local_addr().unwrap().port();
             let mut guards: Vec<Box<dyn Any>> = vec![];
@@ -373,6 +378,10 @@ fn setup(name: &str) -> Option<Setup> {
             let mut s = match name {
                 "tcp_connect" | "tcp_connect_refused" => simple(move || one_fd(TcpStream::connect(&addr))),
                 "tcp_connect_timeout" => simple(move || one_fd(TcpStream::connect_with_timeout(&addr, core::time::Duration::from_millis(500)))),
+                "tcp_connect_timeout_huge" => simple(move || one_fd(TcpStream::connect_with_timeout(&addr, core::time::Duration::MAX))),
+                "tcp_connect_timeout_huge2" => {
+                    simple(move || one_fd(TcpStream::connect_with_timeout(&addr, core::time::Duration::new(i64::MAX as u64 + 1, 999_999_999))))
+                }
                 "tcp_try_connect" => simple(move || try_out(TcpStream::try_connect(&addr))),
                 _ => {
                     // obtain a TcpStreamInProgress: a connect to a listener whose accept queue we do not drain is
@@ -414,7 +423,8 @@ fn setup(name: &str) -> Option<Setup> {
             s.guards.push(Box::new(l));
             s
         }
-        "tcp_accept" | "tcp_try_accept" | "tcp_accept_timeout" | "tcp_try_accept_none" | "tcp_accept_timeout_none" => {
+        "tcp_accept" | "tcp_try_accept" | "tcp_accept_timeout" | "tcp_try_accept_none" | "tcp_accept_timeout_none"
+        | "tcp_accept_timeout_huge" | "tcp_accept_timeout_huge2" => {
             let mut l = TcpListener::bind(&SocketAddress::new(Ip::V4([127, 0, 0, 1]), 0)).unwrap();
             let la = l.local_addr().unwrap();
             let mut guards: Vec<Box<dyn Any>> = vec![];
@@ -430,6 +440,8 @@ fn setup(name: &str) -> Option<Setup> {
                     "tcp_accept" => one_fd(l.accept()),
                     "tcp_try_accept" | "tcp_try_accept_none" => opt_fd(l.try_accept()),
                     "tcp_accept_timeout" => one_fd(l.accept_with_timeout(core::time::Duration::from_millis(200))),
+                    "tcp_accept_timeout_huge" => one_fd(l.accept_with_timeout(core::time::Duration::MAX)),
+                    "tcp_accept_timeout_huge2" => one_fd(l.accept_with_timeout(core::time::Duration::new(i64::MAX as u64 + 1, 0))),
                     _ => one_fd(l.accept_with_timeout(core::time::Duration::from_millis(20))),
                 };
                 o.keep = Box::new((o.keep, l));
